@@ -401,6 +401,11 @@ theorem sim_step (s : St) (e : Ev) (s' : St) (ms : M7a) (hR : Sim s ms) (hs : mo
     split at hs
     · simp at hs; subst hs; exact ⟨ms, rfl, hR⟩
     · simp at hs
+  | boff k b =>
+    simp only [step] at hs
+    split at hs
+    · simp at hs; subst hs; exact ⟨ms, rfl, hR⟩
+    · simp at hs
   | probe j c =>
     simp only [step] at hs
     split at hs
